@@ -673,12 +673,18 @@ class C10(Family):
         Xr = arr_rows(X)
         if impl.get("solver_ret") != X:
             return "x-not-solver-output", "the returned X is not the matrix the SciPy solver returned"
+        # a spoiled problem that is still accepted (asymmetry below eps, ...) need not be well
+        # posed: what SciPy returns for it is outside the property's quantifier, python-control's
+        # own part (solver call, gain, eigenvalues of the pencil) is still checked
+        designed = bool(case.get("Xexact")) or case.get("kind") in ("lyap", "sylv", "dlyap")
         res, scale = doc_residual(case, Xr)
+        if res is None and not designed:
+            res, scale = [[F(0)]], F(1)
         if res is None:
             return "residual", "the documented equation cannot be evaluated at the returned X (singular R / B'XB+R)"
         rel = exmat.maxabs(res) / scale if scale else exmat.maxabs(res)
         info["resid"] = float(rel)
-        if rel > RES_TOL:
+        if rel > RES_TOL and designed:
             return "residual", "relative residual of the documented equation %.3g (max |res| %.3g)" % (
                 float(rel), float(exmat.maxabs(res)))
         if case.get("Xexact"):
@@ -688,7 +694,7 @@ class C10(Family):
             return None
         n = X["p"]
         asym = exmat.maxabs(exmat.sub(Xr, T(Xr)))
-        if asym > SYM_TOL * max(F(1), exmat.maxabs(Xr)):
+        if asym > SYM_TOL * max(F(1), exmat.maxabs(Xr)) and designed:
             return "x-symmetry", "X - X' has an entry of size %.3g" % float(asym)
         G, mres = o["G"], model.get("res")
         if not isinstance(mres, dict) or "G" not in mres:
@@ -737,7 +743,7 @@ class C10(Family):
             margin = max(abs(z) for z in L) - 1
             stable = margin < 0
         info["margin"] = margin
-        if not stable:
+        if not stable and designed:
             return "unstable", "closed loop is not asymptotically stable (margin %.3g)" % margin
         return None
 
